@@ -6,6 +6,7 @@ import JsonPathVerif.ParsedOk
 import JsonPathVerif.Regex
 import JsonPathVerif.Pointer
 import JsonPathVerif.Paths
+import JsonPathVerif.PathAst
 import Lean.Data.Json
 open JP
 
@@ -155,7 +156,6 @@ def locOfJ (j : Lean.Json) : Loc :=
       | _ => Step.idx (match st.getObjVal? "i" with | .ok v => (intOf v).toNat | _ => 0)
   | _ => []
 
-def locSteps (l : Loc) : List PStep := l.map fun s => match s with | .key k => PStep.name k | .idx i => PStep.index i
 
 def refCase (line : String) : String :=
   match Lean.Json.parse line with
@@ -182,6 +182,43 @@ def refCase (line : String) : String :=
          | none => "{\"ref\":null,\"mut\":false,\"after\":" ++ canon d ++ "}")
       | _ => "null"
     "{\"impl\":" ++ impl ++ ",\"spec\":" ++ spec ++ "}"
+
+/-- updates through all paths one query returned, in result order -/
+def refseqCase (line : String) : String :=
+  match Lean.Json.parse line with
+  | .error e => "{\"badjson\":\"" ++ e ++ "\"}"
+  | .ok j =>
+    let q := (j.getObjValAs? String "q").toOption.getD ""
+    let d := docOf ((j.getObjVal? "tdoc").toOption.getD .null)
+    let news := match j.getObjVal? "tnews" with | .ok (.arr a) => a.toList.map docOf | _ => []
+    let newAt (i : Nat) : JP.Json := news.getD (i % (max news.length 1)) .null
+    let impl := match parseJsonPath q.toList with
+      | .error _ => "{\"err\":1}"
+      | .ok segs => match jsPathProcess (reEngine false) segs d with
+        | .error _ => "{\"err\":1}"
+        | .ok ps =>
+          let (after, wrote, _) := ps.foldl (fun (acc : JP.Json × List Bool × Nat) p =>
+            let (doc, w, i) := acc
+            match referenceSet doc p.path (newAt i) with
+            | some doc' => (doc', w ++ [true], i + 1)
+            | none => (doc, w ++ [false], i + 1)) (d, [], 0)
+          "{\"paths\":[" ++ ",".intercalate (ps.map fun p => cps p.path) ++ "],\"wrote\":[" ++ ",".intercalate (wrote.map bstr) ++ "],\"after\":" ++ canon after ++ "}"
+    match rfcBest q.toList with
+    | none => "{\"impl\":" ++ impl ++ ",\"rfc\":\"invalid\"}"
+    | some (segs, v) =>
+      if v == .invalid then "{\"impl\":" ++ impl ++ ",\"rfc\":\"invalid\"}" else
+      let ns := Spec.query dummyEngine segs d
+      -- lens specification: write through the LOCATIONS of the RFC nodelist, in RFC order
+      let (after, wrote, _) := ns.foldl (fun (acc : JP.Json × List Bool × Nat) n =>
+        let (doc, w, i) := acc
+        match setAt (newAt i) doc (locSteps n.1) with
+        | some doc' => (doc', w ++ [true], i + 1)
+        | none => (doc, w ++ [false], i + 1)) (d, [], 0)
+      let spec := "{\"paths\":[" ++ ",".intercalate (ns.map fun n => cps (Spec.npath n.1)) ++ "],\"wrote\":[" ++ ",".intercalate (wrote.map bstr) ++ "],\"after\":" ++ canon after ++ "}"
+      let flags := "{\"escfree\":" ++ bstr (KF.escFreeSegs segs) ++ ",\"normalnames\":" ++ bstr (KF.normalNames segs) ++
+        ",\"plainkeys\":" ++ bstr (KF.plainKeys d) ++ ",\"multisel\":" ++ bstr (KF.multiSelOnMulti dummyEngine d segs [([], d)]) ++
+        ",\"regex_unsupported\":" ++ bstr (decide ((Spec.query (reEngine true) segs d).length ≠ ns.length)) ++ "}"
+      "{\"impl\":" ++ impl ++ ",\"spec\":" ++ spec ++ ",\"rfc\":\"" ++ verdictStr v ++ "\",\"flags\":" ++ flags ++ "}"
 
 def regexCase (line : String) : String :=
   match Lean.Json.parse line with
@@ -325,6 +362,7 @@ partial def loop (h : IO.FS.Stream) (out : IO.FS.Stream) (mode : String) : IO Un
   if mode == "eval" then out.putStrLn (evalCase line)
   else if mode == "regex" then out.putStrLn (regexCase line)
   else if mode == "ref" then out.putStrLn (refCase line)
+  else if mode == "refseq" then out.putStrLn (refseqCase line)
   else if mode == "hist" then out.putStrLn (histCase line)
   else if mode == "ast" then out.putStrLn (astCase line)
   else out.putStrLn (parseCase (unesc ((line.dropEndWhile (· == '\n')).toString)))
